@@ -19,9 +19,91 @@ import sys
 from fractions import Fraction
 
 
-def parse(path):
+def _literal(node):
+    """a literal the extractors may meet in place of a name: numbers / strings, signed numbers, tuples / lists of them"""
+    if isinstance(node, ast.Constant) and isinstance(node.value, (int, float, str)) and not isinstance(node.value, bool):
+        return True
+    if isinstance(node, ast.UnaryOp) and isinstance(node.op, (ast.USub, ast.UAdd)) and isinstance(node.operand, ast.Constant):
+        return isinstance(node.operand.value, (int, float))
+    if isinstance(node, (ast.Tuple, ast.List)):
+        return all(_literal(e) for e in node.elts)
+    return False
+
+
+def _module_literals(tree, src):
+    """module-level names bound exactly once, to a literal, and never rebound inside a function or class"""
+    bound, stores = {}, {}
+    for node in tree.body:
+        if isinstance(node, ast.Assign) and len(node.targets) == 1 and isinstance(node.targets[0], ast.Name) and _literal(node.value):
+            bound.setdefault(node.targets[0].id, []).append(node.value)
+    for node in ast.walk(tree):
+        if isinstance(node, ast.Name) and isinstance(node.ctx, (ast.Store, ast.Del)):
+            stores[node.id] = stores.get(node.id, 0) + 1
+        elif isinstance(node, ast.arg):
+            stores[node.arg] = stores.get(node.arg, 0) + 2   # shadowed by a parameter somewhere: leave it alone
+    return {k: (v[0], ast.get_source_segment(src, v[0])) for k, v in bound.items() if len(v) == 1 and stores.get(k, 0) == 1}
+
+
+def inline_constants(tree, src, path):
+    """Replace every use of a module-level constant (of this module, or `params.X` of the package's params.py) by the
+    literal it names, so that `x * 1.4826` and `x * MAD_TO_STDEV` (with `MAD_TO_STDEV = 1.4826` at module level or in
+    params.py) read the same to the extractors.  The literal keeps its own source text (`seg`)."""
+    import copy
+    own = _module_literals(tree, src)
+    par = {}
+    ppath = os.path.join(os.path.dirname(path), "params.py")
+    for cand in (ppath, os.path.join(os.path.dirname(os.path.dirname(path)), "params.py"),
+                 os.path.join(os.path.dirname(os.path.dirname(path)), "cnvlib", "params.py")):
+        if os.path.exists(cand) and os.path.abspath(cand) != os.path.abspath(path):
+            try:
+                psrc = open(cand).read()
+                par = _module_literals(ast.parse(psrc), psrc)
+            except SyntaxError:
+                par = {}
+            break
+    uses_params = any(isinstance(n, ast.ImportFrom) and any(a.name == "params" for a in n.names) for n in ast.walk(tree)) or \
+        any(isinstance(n, ast.Import) and any(a.name.endswith(".params") for a in n.names) for n in ast.walk(tree))
+
+    def lit(entry, at):
+        node, text = entry
+        new = copy.deepcopy(node)
+        for sub in ast.walk(new):
+            ast.copy_location(sub, at)
+        new._lit_text = text
+        return new
+
+    class T(ast.NodeTransformer):
+        def visit_Assign(self, node):
+            # keep the defining assignment itself
+            if len(node.targets) == 1 and isinstance(node.targets[0], ast.Name) and node.targets[0].id in own \
+                    and node in tree.body:
+                return node
+            return self.generic_visit(node)
+
+        def visit_Name(self, node):
+            if isinstance(node.ctx, ast.Load) and node.id in own:
+                return lit(own[node.id], node)
+            return node
+
+        def visit_Attribute(self, node):
+            if uses_params and isinstance(node.ctx, ast.Load) and isinstance(node.value, ast.Name) and node.value.id == "params" \
+                    and node.attr in par:
+                return lit(par[node.attr], node)
+            return self.generic_visit(node)
+    return T().visit(tree)
+
+
+def seg(src, node):
+    """source text of a node; for a literal inlined by `inline_constants`, the literal's own text"""
+    return getattr(node, "_lit_text", None) or ast.get_source_segment(src, node)
+
+
+def parse(path, inline=True):
     src = open(path).read()
-    return ast.parse(src), src
+    tree = ast.parse(src)
+    if inline:
+        tree = inline_constants(tree, src, path)
+    return tree, src
 
 
 def module_consts(path):
